@@ -2,8 +2,8 @@
 CONSTANTS
   MKind = "vec"
   MEty = "pair"
-  Prefixes <- PrefBases
-  OpNames = {"push", "pop", "clear", "clone", "insert", "remove", "set", "swap", "resize", "get"}
+  Prefixes <- PrefBases2
+  OpNames = {"push", "pop", "clear", "clone", "insert", "remove", "set", "swap", "resize", "get", "iter"}
   MaxOps = 2
   NumSel <- NumSel_none
 SPECIFICATION GenSpec
